@@ -865,7 +865,7 @@ class GFA:
                 child = stack[-1][1]
                 nn = next_child(stack[-1])
 
-                if nn:
+                if nn is not None:
                     if nn == parent:
                         continue
                     if nn in visited:
